@@ -19,13 +19,13 @@ Fixpoint lines_acc (s : str) (start cur : N) : list (N * N) :=
             else (start, n) :: lines_acc r (start + n) 0
         | [] => [(start, n)]
         end
-      else if is_ariadne_sep c then (start, n) :: lines_acc r (start + n) 0
+      else if lc_is_ariadne_sep c then (start, n) :: lines_acc r (start + n) 0
       else lines_acc r start n
   end.
 
-Definition sepfree (cur : str) : Prop := forallb (fun c => negb (is_ariadne_sep c)) cur = true.
+Definition sepfree (cur : str) : Prop := forallb (fun c => negb (lc_is_ariadne_sep c)) cur = true.
 
-Lemma sepfree_snoc cur c : sepfree cur -> is_ariadne_sep c = false -> sepfree (cur ++ [c]).
+Lemma sepfree_snoc cur c : sepfree cur -> lc_is_ariadne_sep c = false -> sepfree (cur ++ [c]).
 Proof.
   unfold sepfree. intros H Hc. rewrite forallb_app, H. cbn. now rewrite Hc.
 Qed.
@@ -36,75 +36,75 @@ Proof. rewrite blen_app. cbn [blen]. lia. Qed.
 Lemma blen_zero cur : blen cur = 0 -> cur = [].
 Proof. destruct cur as [|c r]; [auto|]. cbn [blen]. pose proof (u8len_pos c). lia. Qed.
 
-Lemma ends_with_cr_snoc cur c : ends_with_cr (cur ++ [c]) = (c =? c_cr).
-Proof. unfold ends_with_cr. now rewrite rev_unit. Qed.
+Lemma ends_with_cr_snoc cur c : lc_ends_with_cr (cur ++ [c]) = (c =? c_cr).
+Proof. unfold lc_ends_with_cr. now rewrite rev_unit. Qed.
 
 Lemma merge_cons_nocr p rest boff :
-  ends_with_cr p = false ->
-  merge_lines (p :: rest) boff = (boff, blen p) :: merge_lines rest (boff + blen p).
-Proof. intros H. cbn [merge_lines]. rewrite H. destruct rest; reflexivity. Qed.
+  lc_ends_with_cr p = false ->
+  lc_merge_lines (p :: rest) boff = (boff, blen p) :: lc_merge_lines rest (boff + blen p).
+Proof. intros H. cbn [lc_merge_lines]. rewrite H. destruct rest; reflexivity. Qed.
 
 Lemma merge_cons_nolf p rest boff :
-  (forall q rest', rest = q :: rest' -> is_lf_piece q = false) ->
-  merge_lines (p :: rest) boff = (boff, blen p) :: merge_lines rest (boff + blen p).
+  (forall q rest', rest = q :: rest' -> lc_is_lf_piece q = false) ->
+  lc_merge_lines (p :: rest) boff = (boff, blen p) :: lc_merge_lines rest (boff + blen p).
 Proof.
-  intros H. cbn [merge_lines]. destruct rest as [|q rest']; [reflexivity|].
+  intros H. cbn [lc_merge_lines]. destruct rest as [|q rest']; [reflexivity|].
   rewrite (H q rest' eq_refl), andb_false_r. reflexivity.
 Qed.
 
 Lemma split_first s : forall cur, cur <> [] ->
-  exists q' rest, split_inclusive s cur = (cur ++ q') :: rest.
+  exists q' rest, lc_split_inclusive s cur = (cur ++ q') :: rest.
 Proof.
-  induction s as [|c r IH]; intros cur Hc; cbn [split_inclusive].
+  induction s as [|c r IH]; intros cur Hc; cbn [lc_split_inclusive].
   - destruct cur; [congruence|]. exists [], []. now rewrite app_nil_r.
-  - destruct (is_ariadne_sep c).
-    + now exists [c], (split_inclusive r []).
+  - destruct (lc_is_ariadne_sep c).
+    + now exists [c], (lc_split_inclusive r []).
     + destruct (IH (cur ++ [c])) as (q' & rest & H); [now destruct cur|].
       exists (c :: q'), rest. rewrite H. now rewrite <- app_assoc.
 Qed.
 
 Lemma merge_split n : forall s, (length s <= n)%nat -> forall cur boff,
-  sepfree cur -> merge_lines (split_inclusive s cur) boff = lines_acc s boff (blen cur).
+  sepfree cur -> lc_merge_lines (lc_split_inclusive s cur) boff = lines_acc s boff (blen cur).
 Proof.
   induction n as [|n IH]; intros s Hlen cur boff Hsf.
-  - destruct s; [|cbn in Hlen; lia]. cbn [split_inclusive lines_acc].
+  - destruct s; [|cbn in Hlen; lia]. cbn [lc_split_inclusive lines_acc].
     destruct cur as [|c0 cur0] eqn:Ec; [reflexivity|]. rewrite <- Ec.
     replace (blen cur =? 0) with false; [reflexivity|].
     symmetry. apply N.eqb_neq. intros H0. apply blen_zero in H0. congruence.
   - destruct s as [|c r]; [apply (IH []); [cbn; lia|exact Hsf]|].
     cbn [length] in Hlen. assert (Hr : (length r <= n)%nat) by lia.
-    cbn [split_inclusive lines_acc]. cbv zeta.
+    cbn [lc_split_inclusive lines_acc]. cbv zeta.
     destruct (N.eqb_spec c c_cr) as [->|Hcr].
     + (* carriage return *)
-      replace (is_ariadne_sep c_cr) with true by reflexivity.
+      replace (lc_is_ariadne_sep c_cr) with true by reflexivity.
       destruct r as [|c2 r2].
-      * cbn [split_inclusive merge_lines]. now rewrite blen_snoc.
+      * cbn [lc_split_inclusive lc_merge_lines]. now rewrite blen_snoc.
       * destruct (N.eqb_spec c2 c_lf) as [->|Hlf].
-        -- cbn [split_inclusive]. replace (is_ariadne_sep c_lf) with true by reflexivity.
-           cbn [merge_lines app]. rewrite ends_with_cr_snoc.
+        -- cbn [lc_split_inclusive]. replace (lc_is_ariadne_sep c_lf) with true by reflexivity.
+           cbn [lc_merge_lines app]. rewrite ends_with_cr_snoc.
            replace (c_cr =? c_cr) with true by reflexivity.
-           replace (is_lf_piece [c_lf]) with true by reflexivity. cbn [andb].
+           replace (lc_is_lf_piece [c_lf]) with true by reflexivity. cbn [andb].
            rewrite blen_snoc. f_equal.
            cbn [length] in Hr.
            rewrite (IH r2 ltac:(lia) [] _ eq_refl). reflexivity.
         -- rewrite merge_cons_nolf.
            ++ rewrite blen_snoc. f_equal. rewrite (IH (c2 :: r2) Hr [] _ eq_refl). reflexivity.
-           ++ intros q rest' Hq. cbn [split_inclusive] in Hq.
-              destruct (is_ariadne_sep c2).
+           ++ intros q rest' Hq. cbn [lc_split_inclusive] in Hq.
+              destruct (lc_is_ariadne_sep c2).
               ** injection Hq as <- _. cbn. unf. lia.
               ** destruct (split_first r2 ([] ++ [c2])) as (q' & rest2 & Hs); [discriminate|].
-                 rewrite Hs in Hq. injection Hq as <- _. cbn [app is_lf_piece].
+                 rewrite Hs in Hq. injection Hq as <- _. cbn [app lc_is_lf_piece].
                  destruct q'; [unf; lia|reflexivity].
-    + destruct (is_ariadne_sep c) eqn:Es.
+    + destruct (lc_is_ariadne_sep c) eqn:Es.
       * rewrite merge_cons_nocr.
         -- rewrite blen_snoc. f_equal. rewrite (IH r Hr [] _ eq_refl). reflexivity.
         -- rewrite ends_with_cr_snoc. lia.
       * rewrite (IH r Hr (cur ++ [c]) boff (sepfree_snoc _ _ Hsf Es)). now rewrite blen_snoc.
 Qed.
 
-Lemma source_lines_acc s : source_lines s = match s with [] => [(0, 0)] | _ => lines_acc s 0 0 end.
+Lemma source_lines_acc s : lc_source_lines s = match s with [] => [(0, 0)] | _ => lines_acc s 0 0 end.
 Proof.
-  destruct s as [|c r]; [reflexivity|]. unfold source_lines.
+  destruct s as [|c r]; [reflexivity|]. unfold lc_source_lines.
   now rewrite (merge_split (length (c :: r)) (c :: r) (Nat.le_refl _) [] 0 eq_refl).
 Qed.
 
@@ -116,11 +116,11 @@ Proof.
   rewrite (IH (a + snd x)), (IH (0 + snd x)). lia.
 Qed.
 
-Lemma byte_len_cons x ls : source_byte_len (x :: ls) = snd x + source_byte_len ls.
-Proof. unfold source_byte_len. cbn [fold_left]. rewrite fold_len_acc. lia. Qed.
+Lemma byte_len_cons x ls : lc_source_byte_len (x :: ls) = snd x + lc_source_byte_len ls.
+Proof. unfold lc_source_byte_len. cbn [fold_left]. rewrite fold_len_acc. lia. Qed.
 
 Lemma lines_acc_len n : forall s, (length s <= n)%nat -> forall start cur,
-  source_byte_len (lines_acc s start cur) = cur + blen s.
+  lc_source_byte_len (lines_acc s start cur) = cur + blen s.
 Proof.
   induction n as [|n IH]; intros s Hlen start cur.
   - destruct s; [|cbn in Hlen; lia]. cbn [lines_acc blen].
@@ -134,7 +134,7 @@ Proof.
       * rewrite byte_len_cons. cbn [length] in Hr. rewrite (IH r2 ltac:(lia)). cbn [snd blen].
         replace (u8len c_lf) with 1 by reflexivity. lia.
       * rewrite byte_len_cons, (IH _ Hr). cbn [snd]. lia.
-    + destruct (is_ariadne_sep c).
+    + destruct (lc_is_ariadne_sep c).
       * rewrite byte_len_cons, (IH _ Hr). cbn [snd]. lia.
       * rewrite (IH _ Hr). lia.
 Qed.
@@ -153,7 +153,7 @@ Proof.
       * destruct (c2 =? c_lf).
         -- exists (cur + u8len c + 1), r2. split; [reflexivity|lia].
         -- exists (cur + u8len c), (c2 :: r2). split; [reflexivity|lia].
-    + destruct (is_ariadne_sep c).
+    + destruct (lc_is_ariadne_sep c).
       * exists (cur + u8len c), r. split; [reflexivity|lia].
       * destruct (IH start (cur + u8len c)) as (n & r' & E & Hn).
         { left. pose proof (u8len_pos c). lia. }
@@ -164,28 +164,28 @@ Lemma lines_acc_nil0 st : lines_acc [] st 0 = [].
 Proof. reflexivity. Qed.
 
 Lemma find_line_lt s st cur off idx best :
-  off < st -> find_line (lines_acc s st cur) off idx best = best.
+  off < st -> lc_find_line (lines_acc s st cur) off idx best = best.
 Proof.
   intros H. destruct (N.eq_dec cur 0) as [->|Hc].
   - destruct s as [|c r]; [reflexivity|].
     destruct (lines_acc_cons (c :: r) st 0) as (n & r' & E & _); [right; discriminate|].
-    rewrite E. cbn [find_line]. now replace (st <=? off) with false by lia.
+    rewrite E. cbn [lc_find_line]. now replace (st <=? off) with false by lia.
   - destruct (lines_acc_cons s st cur) as (n & r' & E & _); [now left|].
-    rewrite E. cbn [find_line]. now replace (st <=? off) with false by lia.
+    rewrite E. cbn [lc_find_line]. now replace (st <=? off) with false by lia.
 Qed.
 
 (* ------------------------------------------------------------------ the table lookup is the one-pass scan *)
 
 Lemma scan_table n : forall s, (length s <= n)%nat -> forall start cur idx off best,
   start + cur <= off -> (cur <> 0 \/ s <> []) ->
-  impl_scan s (off - (start + cur)) (idx + 1) (cur + 1) =
+  lc_impl_scan s (off - (start + cur)) (idx + 1) (cur + 1) =
     if off <=? start + cur + blen s
-    then let '(i, st) := find_line (lines_acc s start cur) off idx best in Some (i + 1, off - st + 1)
+    then let '(i, st) := lc_find_line (lines_acc s start cur) off idx best in Some (i + 1, off - st + 1)
     else None.
 Proof.
   induction n as [|n IH]; intros s Hlen start cur idx off best Hoff Hne.
   - destruct s; [|cbn in Hlen; lia]. destruct Hne as [Hc|]; [|congruence].
-    cbn [impl_scan lines_acc blen]. replace (cur =? 0) with false by lia. cbn [find_line].
+    cbn [lc_impl_scan lines_acc blen]. replace (cur =? 0) with false by lia. cbn [lc_find_line].
     replace (start <=? off) with true by lia.
     destruct (N.eqb_spec (off - (start + cur)) 0) as [E|E].
     + replace (off <=? start + cur + 0) with true by lia. f_equal. f_equal. lia.
@@ -193,28 +193,28 @@ Proof.
   - destruct s as [|c r]; [apply (IH []); [cbn; lia|exact Hoff|exact Hne]|].
     cbn [length] in Hlen. assert (Hr : (length r <= n)%nat) by lia.
     pose proof (u8len_pos c) as Hpos.
-    cbn [impl_scan]. destruct (N.ltb_spec (off - (start + cur)) (u8len c)) as [Hin|Hout].
+    cbn [lc_impl_scan]. destruct (N.ltb_spec (off - (start + cur)) (u8len c)) as [Hin|Hout].
     + (* the offset lies on the current line, before the end of c *)
       cbn [blen]. replace (off <=? start + cur + (u8len c + blen r)) with true by lia.
       destruct (lines_acc_cons (c :: r) start cur) as (m & r' & E & Hm); [right; discriminate|].
-      cbn [hdlen] in Hm. rewrite E. cbn [find_line]. replace (start <=? off) with true by lia.
+      cbn [hdlen] in Hm. rewrite E. cbn [lc_find_line]. replace (start <=? off) with true by lia.
       rewrite find_line_lt by lia. f_equal. f_equal. lia.
     + cbn [lines_acc blen]. cbv zeta.
       destruct (N.eqb_spec c c_cr) as [->|Hcr].
       * replace (u8len c_cr) with 1 in * by reflexivity.
         destruct r as [|c2 r2].
-        -- cbn [blen find_line]. replace (start <=? off) with true by lia.
+        -- cbn [blen lc_find_line]. replace (start <=? off) with true by lia.
            destruct (N.eqb_spec (off - (start + cur)) 1) as [E|E].
            ++ replace (off <=? start + cur + (1 + 0)) with true by lia. f_equal. f_equal. lia.
            ++ now replace (off <=? start + cur + (1 + 0)) with false by lia.
         -- destruct (N.eqb_spec c2 c_lf) as [->|Hlf].
            ++ cbn [blen]. replace (u8len c_lf) with 1 by reflexivity.
-              cbn [find_line]. replace (start <=? off) with true by lia.
+              cbn [lc_find_line]. replace (start <=? off) with true by lia.
               destruct (N.eqb_spec (off - (start + cur)) 1) as [E|E].
               ** replace (off <=? start + cur + (1 + (1 + blen r2))) with true by lia.
                  rewrite find_line_lt by lia. f_equal. f_equal. lia.
               ** destruct r2 as [|c3 r3].
-                 --- rewrite lines_acc_nil0. cbn [blen find_line].
+                 --- rewrite lines_acc_nil0. cbn [blen lc_find_line].
                      destruct (N.eqb_spec (off - (start + cur)) 2) as [E2|E2].
                      +++ replace (off <=? start + cur + (1 + (1 + 0))) with true by lia.
                          f_equal. f_equal. lia.
@@ -227,7 +227,7 @@ Proof.
                      replace (off <=? start + (cur + 1 + 1) + 0 + blen (c3 :: r3))
                        with (off <=? start + cur + (1 + (1 + blen (c3 :: r3)))) by lia.
                      reflexivity.
-           ++ cbn [find_line]. replace (start <=? off) with true by lia.
+           ++ cbn [lc_find_line]. replace (start <=? off) with true by lia.
               pose proof (IH (c2 :: r2) Hr (start + (cur + 1)) 0 (idx + 1) off (idx, start)
                             ltac:(lia) ltac:(right; discriminate)) as HI.
               replace (off - (start + (cur + 1) + 0)) with (off - (start + cur) - 1) in HI by lia.
@@ -235,10 +235,10 @@ Proof.
               replace (off <=? start + (cur + 1) + 0 + blen (c2 :: r2))
                 with (off <=? start + cur + (1 + blen (c2 :: r2))) by lia.
               reflexivity.
-      * destruct (is_ariadne_sep c) eqn:Es.
-        -- cbn [find_line]. replace (start <=? off) with true by lia.
+      * destruct (lc_is_ariadne_sep c) eqn:Es.
+        -- cbn [lc_find_line]. replace (start <=? off) with true by lia.
            destruct r as [|c2 r2].
-           ++ rewrite lines_acc_nil0. cbn [blen find_line].
+           ++ rewrite lines_acc_nil0. cbn [blen lc_find_line].
               destruct (N.eqb_spec (off - (start + cur)) (u8len c)) as [E|E].
               ** replace (off <=? start + cur + (u8len c + 0)) with true by lia. f_equal. f_equal. lia.
               ** now replace (off <=? start + cur + (u8len c + 0)) with false by lia.
@@ -258,9 +258,9 @@ Proof.
 Qed.
 
 Lemma find_line_le ls : forall off idx best i st,
-  snd best <= off -> find_line ls off idx best = (i, st) -> st <= off.
+  snd best <= off -> lc_find_line ls off idx best = (i, st) -> st <= off.
 Proof.
-  induction ls as [|[s0 l0] ls IH]; intros off idx best i st Hb; cbn [find_line].
+  induction ls as [|[s0 l0] ls IH]; intros off idx best i st Hb; cbn [lc_find_line].
   - intros ->. exact Hb.
   - destruct (N.leb_spec s0 off).
     + apply IH. cbn. lia.
@@ -271,36 +271,36 @@ Definition res_of (o : option (N * N)) : lcres :=
   match o with Some (l, c) => LcSome l c | None => LcNone end.
 
 (* SourceFile::get_line_column = the one-pass scan *)
-Theorem impl_line_col_scan s off : impl_line_col s off = res_of (impl_scan s off 1 1).
+Theorem impl_line_col_scan s off : lc_impl_line_col s off = res_of (lc_impl_scan s off 1 1).
 Proof.
-  unfold impl_line_col. rewrite source_lines_acc. destruct s as [|c r].
-  - unfold get_byte_line. cbn [source_byte_len fold_left snd impl_scan].
+  unfold lc_impl_line_col. rewrite source_lines_acc. destruct s as [|c r].
+  - unfold lc_get_byte_line. cbn [lc_source_byte_len fold_left snd lc_impl_scan].
     destruct (N.eqb_spec off 0) as [->|H]; [reflexivity|].
     replace (off <=? 0 + 0) with false by lia. reflexivity.
   - pose proof (scan_table (length (c :: r)) (c :: r) (Nat.le_refl _) 0 0 0 off (0, 0)
                  ltac:(lia) ltac:(right; discriminate)) as H.
     replace (off - (0 + 0)) with off in H by lia. change (0 + 1) with 1 in H.
-    rewrite H. unfold get_byte_line.
+    rewrite H. unfold lc_get_byte_line.
     rewrite (lines_acc_len (length (c :: r)) (c :: r) (Nat.le_refl _) 0 0).
     replace (off <=? 0 + blen (c :: r)) with (off <=? 0 + 0 + blen (c :: r)) by lia.
     destruct (off <=? 0 + 0 + blen (c :: r)); [|reflexivity].
     destruct (lines_acc_cons (c :: r) 0 0) as (m & r' & E & _); [right; discriminate|].
     rewrite E.
-    destruct (find_line ((0, m) :: lines_acc r' (0 + m) 0) off 0 (0, 0)) as [i st] eqn:Ef.
+    destruct (lc_find_line ((0, m) :: lines_acc r' (0 + m) 0) off 0 (0, 0)) as [i st] eqn:Ef.
     assert (Hst : st <= off).
     { apply (find_line_le ((0, m) :: lines_acc r' (0 + m) 0) off 0 (0, 0) i st); [cbn [snd]; lia|exact Ef]. }
     replace (off <? st) with false by lia. cbn [res_of]. f_equal; lia.
 Qed.
 
-Corollary impl_line_col_no_panic s off : impl_line_col s off <> LcPanic.
-Proof. rewrite impl_line_col_scan. destruct (impl_scan s off 1 1) as [[l c]|]; discriminate. Qed.
+Corollary impl_line_col_no_panic s off : lc_impl_line_col s off <> LcPanic.
+Proof. rewrite impl_line_col_scan. destruct (lc_impl_scan s off 1 1) as [[l c]|]; discriminate. Qed.
 
 (* ------------------------------------------------------------------ the scan against the specification *)
 
 Lemma k_eof_cons c r off :
-  r <> [] -> u8len c <= off -> k_eof (c :: r) off = k_eof r (off - u8len c).
+  r <> [] -> u8len c <= off -> lc_k_eof (c :: r) off = lc_k_eof r (off - u8len c).
 Proof.
-  intros Hr Hoff. unfold k_eof. cbn [blen rev].
+  intros Hr Hoff. unfold lc_k_eof. cbn [blen rev].
   replace (off =? u8len c + blen r) with (off - u8len c =? blen r) by lia. f_equal.
   destruct (rev r) as [|x t] eqn:E.
   - apply (f_equal (@rev N)) in E. rewrite rev_involutive in E. cbn in E. congruence.
@@ -308,24 +308,24 @@ Proof.
 Qed.
 
 Lemma k_eof_tail c r off k :
-  r <> [] -> u8len c = k -> k <= off -> k_eof (c :: r) off = false -> k_eof r (off - k) = false.
+  r <> [] -> u8len c = k -> k <= off -> lc_k_eof (c :: r) off = false -> lc_k_eof r (off - k) = false.
 Proof. intros Hr <- Hle H. rewrite <- (k_eof_cons c r off Hr Hle). exact H. Qed.
 
-Lemma extra_sep_is_sep c : is_ariadne_sep c = true -> c <> c_cr -> c <> c_lf -> is_extra_sep c = true.
-Proof. unfold is_ariadne_sep, is_extra_sep. unf. lia. Qed.
+Lemma extra_sep_is_sep c : lc_is_ariadne_sep c = true -> c <> c_cr -> c <> c_lf -> lc_is_extra_sep c = true.
+Proof. unfold lc_is_ariadne_sep, lc_is_extra_sep. unf. lia. Qed.
 
 Lemma scan_spec n : forall s, (length s <= n)%nat -> forall off line col1 col2 acc,
   (acc = false -> col1 = col2) ->
-  k_sep s off = false -> k_col_scan s off acc = false -> k_eof s off = false ->
-  impl_scan s off line col1 = lc_scan s off line col2.
+  lc_k_sep s off = false -> lc_k_col_scan s off acc = false -> lc_k_eof s off = false ->
+  lc_impl_scan s off line col1 = lc_scan s off line col2.
 Proof.
   induction n as [|n IH]; intros s Hlen off line col1 col2 acc Hcol Hsep Hkc Heof.
-  - destruct s; [|cbn in Hlen; lia]. cbn [impl_scan lc_scan k_col_scan] in *.
+  - destruct s; [|cbn in Hlen; lia]. cbn [lc_impl_scan lc_scan lc_k_col_scan] in *.
     rewrite (Hcol Hkc). reflexivity.
   - destruct s as [|c r]; [apply (IH [] ltac:(cbn; lia) off line col1 col2 acc); assumption|].
     cbn [length] in Hlen. assert (Hr : (length r <= n)%nat) by lia.
     pose proof (u8len_pos c) as Hpos.
-    cbn [impl_scan lc_scan]. cbn [k_sep k_col_scan] in Hsep, Hkc.
+    cbn [lc_impl_scan lc_scan]. cbn [lc_k_sep lc_k_col_scan] in Hsep, Hkc.
     destruct (N.ltb_spec off (u8len c)) as [Hin|Hout].
     + destruct (N.eqb_spec off 0) as [->|H0]; [|discriminate].
       rewrite (Hcol Hkc). f_equal. f_equal. lia.
@@ -334,10 +334,10 @@ Proof.
       destruct (N.eqb_spec c c_lf) as [->|Hlf].
       * (* line feed *)
         replace (c_lf =? c_cr) with false in * by reflexivity.
-        replace (is_ariadne_sep c_lf) with true by reflexivity.
+        replace (lc_is_ariadne_sep c_lf) with true by reflexivity.
         replace (u8len c_lf) with 1 in * by reflexivity.
         destruct r as [|c2 r2].
-        -- cbn [lc_scan]. unfold k_eof in Heof. cbn [blen rev app] in Heof.
+        -- cbn [lc_scan]. unfold lc_k_eof in Heof. cbn [blen rev app] in Heof.
            replace (u8len c_lf) with 1 in Heof by reflexivity.
            replace ((c_lf =? c_lf) || (c_lf =? c_cr)) with true in Heof by reflexivity.
            destruct (N.eqb_spec off 1); [lia|]. now replace (off - 1 =? 0) with false by lia.
@@ -347,21 +347,21 @@ Proof.
         -- (* carriage return *)
            replace (u8len c_cr) with 1 in * by reflexivity.
            destruct r as [|c2 r2].
-           ++ cbn [lc_scan]. unfold k_eof in Heof. cbn [blen rev app] in Heof.
+           ++ cbn [lc_scan]. unfold lc_k_eof in Heof. cbn [blen rev app] in Heof.
               replace (u8len c_cr) with 1 in Heof by reflexivity.
               replace ((c_cr =? c_lf) || (c_cr =? c_cr)) with true in Heof by reflexivity.
               destruct (N.eqb_spec off 1); [lia|]. now replace (off - 1 =? 0) with false by lia.
            ++ destruct (N.eqb_spec c2 c_lf) as [->|Hlf2].
               ** destruct (N.eqb_spec off 1) as [->|H1].
                  --- rewrite (Hcol Hkc). reflexivity.
-                 --- assert (Heof2 : k_eof (c_lf :: r2) (off - 1) = false).
+                 --- assert (Heof2 : lc_k_eof (c_lf :: r2) (off - 1) = false).
                      { apply (k_eof_tail c_cr (c_lf :: r2) off 1); [discriminate|reflexivity|lia|exact Heof]. }
-                     cbn [k_sep] in Hsep. replace (u8len c_lf) with 1 in Hsep by reflexivity.
+                     cbn [lc_k_sep] in Hsep. replace (u8len c_lf) with 1 in Hsep by reflexivity.
                      replace (off - 1 <? 1) with false in Hsep by lia.
                      apply orb_false_iff in Hsep as [_ Hsep].
                      replace (off - 1 - 1) with (off - 2) in Hsep by lia.
                      destruct r2 as [|c3 r3].
-                     +++ cbn [lc_scan]. unfold k_eof in Heof2. cbn [blen rev app] in Heof2.
+                     +++ cbn [lc_scan]. unfold lc_k_eof in Heof2. cbn [blen rev app] in Heof2.
                          replace (u8len c_lf) with 1 in Heof2 by reflexivity.
                          replace ((c_lf =? c_lf) || (c_lf =? c_cr)) with true in Heof2 by reflexivity.
                          destruct (N.eqb_spec off 2); [lia|]. now replace (off - 2 =? 0) with false by lia.
@@ -371,19 +371,19 @@ Proof.
                          apply (k_eof_tail c_lf (c3 :: r3) (off - 1) 1); [discriminate|reflexivity|lia|exact Heof2].
               ** apply (IH (c2 :: r2) Hr (off - 1) (line + 1) 1 1 false); auto.
                  apply (k_eof_tail c_cr (c2 :: r2) off 1); [discriminate|reflexivity|lia|exact Heof].
-        -- destruct (is_ariadne_sep c) eqn:Es.
+        -- destruct (lc_is_ariadne_sep c) eqn:Es.
            ++ rewrite (extra_sep_is_sep c Es Hcr Hlf) in Hex. discriminate.
            ++ apply (IH r Hr (off - u8len c) line (col1 + u8len c) (col2 + 1) (acc || (1 <? u8len c))); auto.
               ** intros Ha. apply orb_false_iff in Ha as [Ha1 Ha2]. rewrite (Hcol Ha1). lia.
-              ** destruct r as [|c2 r2]; [unfold k_eof; cbn [rev]; apply andb_false_r|].
+              ** destruct r as [|c2 r2]; [unfold lc_k_eof; cbn [rev]; apply andb_false_r|].
                  apply (k_eof_tail c (c2 :: r2) off (u8len c)); [discriminate|reflexivity|lia|exact Heof].
 Qed.
 
 (* C11, restricted to offsets outside the three known classes *)
 Theorem line_col_correct s off :
-  known_c11 s off = false -> impl_line_col s off = res_of (line_col s off).
+  lc_known_c11 s off = false -> lc_impl_line_col s off = res_of (lc_line_col s off).
 Proof.
-  unfold known_c11, k_col, line_col. intros H.
+  unfold lc_known_c11, lc_k_col, lc_line_col. intros H.
   apply orb_false_iff in H as [H Heof]. apply orb_false_iff in H as [Hsep Hcol].
   rewrite impl_line_col_scan. f_equal.
   apply (scan_spec (length s) s (Nat.le_refl _) off 1 1 1 false); auto.
@@ -391,12 +391,12 @@ Qed.
 
 (* get_line_column_range is the pair of the endpoint conversions (both must exist) *)
 Theorem range_is_pair s a b :
-  impl_range s a b =
-    match impl_line_col s a, impl_line_col s b with
+  lc_impl_range s a b =
+    match lc_impl_line_col s a, lc_impl_line_col s b with
     | LcSome l1 c1, LcSome l2 c2 => Some ((l1, c1), (l2, c2))
     | _, _ => None
     end.
-Proof. unfold impl_range. destruct (impl_line_col s a); reflexivity. Qed.
+Proof. unfold lc_impl_range. destruct (lc_impl_line_col s a); reflexivity. Qed.
 
 (* sanity of the specification: defined exactly up to the end of the text; line and column start at 1 *)
 Lemma lc_scan_none s : forall off line col, lc_scan s off line col = None <-> blen s < off.
@@ -424,18 +424,18 @@ Proof.
   intros off line col. apply (H (length s) s (Nat.le_refl _)).
 Qed.
 
-Theorem line_col_defined s off : line_col s off = None <-> blen s < off.
+Theorem line_col_defined s off : lc_line_col s off = None <-> blen s < off.
 Proof. apply lc_scan_none. Qed.
 
 (* ------------------------------------------------------------------ Name's packed location *)
 From ApolloVerif Require Import Loc.Spans.
 
 Theorem name_location_roundtrip text s e n' :
-  name_with_location (name_new text) (s, e) = WlOk n' ->
-  name_location n' = Some (s, e) /\ n_text n' = text /\ e - s = blen text.
+  lc_name_with_location (lc_name_new text) (s, e) = LcWlOk n' ->
+  lc_name_location n' = Some (s, e) /\ lcn_text n' = text /\ e - s = blen text.
 Proof.
-  unfold name_with_location, name_new. cbn [n_text].
+  unfold lc_name_with_location, lc_name_new. cbn [lcn_text].
   destruct ((e - s =? blen text) && (s <=? e)) eqn:E; [|discriminate].
-  intros [= <-]. unfold name_location. cbn [n_has_file n_start n_text].
+  intros [= <-]. unfold lc_name_location. cbn [lcn_has_file lcn_start lcn_text].
   repeat split; [f_equal; f_equal; lia|lia].
 Qed.
